@@ -271,6 +271,15 @@ func execCall(w *World, c Call) (res string, uuid string) {
 			return cls(s.Err()), ""
 		}
 		return fmt.Sprintf("ok:%d", s.Len()), ""
+	case "emptyor":
+		// union of a search that matches nothing (whenever it is evaluated) with a condition:
+		// the Or call is the only step that reads the collection
+		spec := specByPath(c.Field)
+		s := db.Search(&Rec{}, "S", "=", "\x00never-stored").Or(c.Field, c.Cmp, spec.probes()[c.Probe])
+		if s.Err() != nil {
+			return cls(s.Err()), ""
+		}
+		return fmt.Sprintf("ok:%d", s.Len()), ""
 	case "one":
 		spec := specByPath(c.Field)
 		o, err := db.Search(&Rec{}, c.Field, c.Cmp, spec.probes()[c.Probe]).One()
@@ -538,7 +547,7 @@ func modelStep(m *Model, slots []string, c Call, rec *CallRec) string {
 		}
 		sort.Ints(t)
 		return fmt.Sprintf("ok:%v", t)
-	case "search", "searchu":
+	case "search", "searchu", "emptyor":
 		spec := specByPath(c.Field)
 		return fmt.Sprintf("ok:%d", len(m.search(spec, c.Cmp, spec.probes()[c.Probe])))
 	case "collect":
